@@ -1195,8 +1195,16 @@ def fuse_linear_task_spec(dsk, keys):
         else:
             # Renaming the keys is necessary to preserve the rootish detection for now
             renamed_key = default_fused_keys_renamer([tsk.key for tsk in linear_chain])
-            if renamed_key is None:
-                # Keys that cannot be renamed (e.g. integers): keep the top key
+            if renamed_key is None or (
+                renamed_key != top_key
+                and (renamed_key in dependents or renamed_key in result)
+            ):
+                # Keys that cannot be renamed (e.g. integers): keep the top key.
+                # The same holds if the new name is already taken by another
+                # key of the graph (or a key the graph refers to) or by another
+                # fused chain (over-long names are truncated to a common prefix
+                # plus a short hash): storing the fused task under it would
+                # overwrite that other task.
                 renamed_key = top_key
             result[renamed_key] = Task.fuse(*linear_chain, key=renamed_key)
             if renamed_key != top_key:
